@@ -18,14 +18,26 @@
 (*             FALSE models the protocol without that step and must fail)   *)
 (*   NoLeak    after done a process holds no descriptor of the pipe         *)
 (***************************************************************************)
-EXTENDS Naturals, FiniteSets, Sequences, TLC
-CONSTANTS Procs,        \* the processes sharing the object after fork
-          PREP          \* TRUE: wait/signal close the unused end first (the code); FALSE: the design without it
-VARIABLES fdR, fdW,     \* process -> that process still has the read / write end open
-          bytes,        \* bytes in the pipe
-          pc,           \* process -> "idle" | "waiting" (blocked in read) | "finished" | "dead"
-          res,          \* process -> result of its last wait/signal: "none" | "ok" | "eof" | "epipe" | "ebadf"
-          written       \* number of bytes ever written (ghost, for Causal)
+EXTENDS Integers, FiniteSets, Sequences, TLC
+\* (the @type comments are for Apalache, which proves the invariants inductive for any number of bytes: IpcSyncInd.cfg)
+CONSTANTS
+  \* @type: Set(Str);
+  Procs,        \* the processes sharing the object after fork
+  \* @type: Bool;
+  PREP          \* TRUE: wait/signal close the unused end first (the code); FALSE: the design without it
+VARIABLES
+  \* @type: Str -> Bool;
+  fdR,          \* process -> that process still has the read end open
+  \* @type: Str -> Bool;
+  fdW,          \* process -> that process still has the write end open
+  \* @type: Int;
+  bytes,        \* bytes in the pipe
+  \* @type: Str -> Str;
+  pc,           \* process -> "idle" | "waiting" (blocked in read) | "finished" | "dead"
+  \* @type: Str -> Str;
+  res,          \* process -> result of its last wait/signal: "none" | "ok" | "eof" | "epipe" | "ebadf"
+  \* @type: Int;
+  written       \* number of bytes ever written (ghost, for Causal)
 vars == <<fdR, fdW, bytes, pc, res, written>>
 
 Readers == {p \in Procs : fdR[p]}
@@ -87,6 +99,15 @@ WaitsOK == \A p \in Procs : (pc[p] = "idle" /\ res[p] = "ok") => written >= 1
 \* a blocked waiter can always be released once nobody else is alive: either a byte is there or end-of-file is
 NoHang == \A p \in Procs : (pc[p] = "waiting" /\ \A q \in Procs \ {p} : ~Alive(q)) => (bytes > 0 \/ Writers = {})
 NoLeak == \A p \in Procs : pc[p] \in {"finished", "dead"} => (~fdR[p] /\ ~fdW[p])
+\* inductive invariant (Apalache: Init => IndInv, IndInv /\ Next => IndInv'), for any number of bytes and signals
+IndInv == /\ fdR \in [Procs -> BOOLEAN] /\ fdW \in [Procs -> BOOLEAN]
+          /\ bytes \in Int /\ written \in Int /\ bytes >= 0 /\ bytes <= written
+          /\ pc \in [Procs -> {"idle", "waiting", "finished", "dead"}]
+          /\ res \in [Procs -> {"none", "ok", "eof", "epipe", "ebadf"}]
+          /\ \A p \in Procs : pc[p] = "waiting" => (fdR[p] /\ (PREP => ~fdW[p]))
+          /\ \A p \in Procs : res[p] = "ok" => written >= 1
+          /\ NoLeak
+IndImpliesNoHang == IndInv => (PREP => NoHang)
 \* bound for model checking: at most MaxBytes signals
 MaxBytes == 3
 Bound == written <= MaxBytes
